@@ -196,10 +196,15 @@ func (y *Yaml) GetMapKeys() ([]string, error) {
 	if err != nil {
 		return nil, err
 	}
+	// keys in document order (ranging over the Go map made the order differ from run to run)
 	keys := make([]string, 0)
-	for k := range m {
-		keys = append(keys, k)
-
+	seen := make(map[string]bool)
+	for i := 0; i+1 < len(y.data.Content); i += 2 {
+		k := y.data.Content[i].Value
+		if _, ok := m[k]; ok && !seen[k] {
+			seen[k] = true
+			keys = append(keys, k)
+		}
 	}
 	return keys, nil
 }
